@@ -115,7 +115,15 @@ impl State {
     pub fn add_file<P: Into<PathBuf>>(&mut self, path: P) -> CoreResult<Arc<File>> {
         let path = path.into();
         let src = self.source.lock().unwrap().get_contents(&path)?;
-        Ok(self.code_map.add_file(path.to_str().unwrap().into(), src))
+        // (a path that is not valid UTF-8 gets a name that is as close as possible)
+        Ok(self
+            .code_map
+            .add_file(path.to_string_lossy().to_string(), src))
+    }
+
+    /// What was said about ignoring the next error was said about the file that has just been parsed
+    pub fn forget_ignored_error(&mut self) {
+        self.ignore_next_error = false;
     }
 
     /// Mark the next reported error to be ignored (since it may be redundant or something)
